@@ -409,10 +409,18 @@ def pick_range(rng, f, l, maxn, pos=None):
     return s, e, pos
 
 
-def gen_history(rng, avoid, big=False):
-    """one history of one section; returns (ops, features)"""
+def gen_history(rng, avoid, big=False, directed=None):
+    """one history of one section; returns (ops, features).
+    directed = "permute": poly section, in-place replacements whose element sizes are a permutation of the stored ones
+               (same total size, different boundaries), preferably right after a reopen (connectivity not cached);
+    directed = "parcache": fixed-size section stored as I4 with parent data; a partial read WITH parent data, then a
+               partial parent write, then an extension (the stale-cache hazard of the parent arrays)."""
     maxn = 12 if big else 5
     kind = rng.choice(["fixed", "fixed", "mixed", "ngon", "nface"])
+    if directed == "permute":
+        kind = rng.choice(["mixed", "ngon", "nface"])
+    elif directed == "parcache":
+        kind = "fixed"
     t = rng.choice(FIXED_TYPES) if kind == "fixed" else {"mixed": MIXED, "ngon": NGON, "nface": NFACE}[kind]
     poly = kind != "fixed"
     first = rng.randint(8, 30)
@@ -426,6 +434,11 @@ def gen_history(rng, avoid, big=False):
         ref.apply(op)
 
     how = rng.choice(["full", "full", "partial", "general4", "general8"])
+    if directed == "parcache":
+        how = rng.choice(["general4", "general4", "general8"])
+    if directed == "permute":
+        n0 = max(n0, 3)
+        how = "full"           # real elements of different sizes from the start (placeholders all have one size)
     if how == "full":
         elems = [gen_elem(rng, t) for _ in range(n0)]
         emit(("psecw" if poly else "secw", t, first, first + n0 - 1, elems))
@@ -440,8 +453,8 @@ def gen_history(rng, avoid, big=False):
         if not poly:      # a fixed-size section created without data is unreadable on ADF until something is written
             emit(("epw", first, first + n0 - 1, [gen_elem(rng, t) for _ in range(n0)]))
     stored4 = how == "general4"
-    with_parent = rng.random() < 0.55
-    if with_parent and rng.random() < 0.7:
+    with_parent = rng.random() < 0.55 or directed == "parcache"
+    if with_parent and (rng.random() < 0.7 or directed == "parcache"):
         emit(("pdw", [[rng.randint(0, 9999) for _ in range(4)] for _ in range(ref.n())]))
         feat.add("parent")
 
@@ -479,7 +492,72 @@ def gen_history(rng, avoid, big=False):
         for x in r:
             emit(x)
 
+    def permuted(old):
+        """new elements whose sizes are a non-identical permutation of the old sizes, if there is one"""
+        sizes = [len(o) for o in old]
+        if len(set(sizes)) < 2:
+            return None
+        for _ in range(20):
+            perm = sizes[:]
+            rng.shuffle(perm)
+            if perm != sizes:
+                break
+        else:
+            return None
+        out = []
+        for n_ in perm:
+            if t == MIXED:
+                cands = [et for et in MIX_SUB if NPE[et] + 1 == n_]
+                if not cands:
+                    return None
+                out.append([rng.choice(cands)] + [rng.randint(1, 999) for _ in range(n_ - 1)])
+            elif t == NGON:
+                out.append([rng.randint(1, 999) for _ in range(n_)])
+            else:
+                out.append([rng.choice([1, -1]) * rng.randint(1, 99) for _ in range(n_)])
+        return out
+
     reads()
+    script = []
+    if directed == "permute":
+        script = ["reopen", "perm", "read", "perm", "reopen", "perm"]
+    elif directed == "parcache":
+        script = ["readpar", "pdpw", "readpar", "extend", "read", "pdpw", "extend"]
+    for step in script:
+        f, l = ref.sec["first"], ref.last()
+        if step == "reopen":
+            emit(("reopen",)); cached[0] = False; feat.add("reopen")
+        elif step == "read":
+            reads()
+        elif step == "perm":
+            for _ in range(6):
+                s_ = rng.randint(f, l); e_ = rng.randint(s_, min(l, s_ + maxn - 1))
+                old = ref.sec["elems"][s_ - f:e_ - f + 1]
+                new = permuted(old) if all(o is not None for o in old) else None
+                if new:
+                    mt = rng.choice([4, 8, 8])
+                    emit(("pgw", mt, s_, e_, new) if rng.random() < 0.5 else ("ppw", s_, e_, new))
+                    feat.add("inside"); feat.add("permuted-sizes")
+                    break
+            reads()
+        elif step == "readpar":
+            a = rng.randint(f, l); b = rng.randint(a, l)
+            emit(("epr", a, b, 1))
+            if stored4:
+                cached[0] = True
+        elif step == "pdpw":
+            a = rng.randint(f, l); b = rng.randint(a, l)
+            emit(("pdpw", a, b, [[rng.randint(0, 9999) for _ in range(4)] for _ in range(b - a + 1)]))
+            feat.add("parent")
+            a = rng.randint(f, l); b = rng.randint(a, l)
+            emit(("epr", a, b, 1))
+        elif step == "extend":
+            s_, e_, pos = pick_range(rng, f, l, maxn, rng.choice(["back", "after", "front", "before"]))
+            new = [gen_elem(rng, t) for _ in range(e_ - s_ + 1)]
+            emit(("egw", rng.choice([4, 8]), s_, e_, new) if rng.random() < 0.5 else ("epw", s_, e_, new))
+            feat.add(pos); feat.add("parent-resized")
+            f, l = ref.sec["first"], ref.last()
+            emit(("epr", f, l, 1))
     for _ in range(rng.randint(2, 9 if big else 6)):
         f, l = ref.sec["first"], ref.last()
         c = rng.random()
@@ -492,8 +570,12 @@ def gen_history(rng, avoid, big=False):
             new = [gen_elem(rng, t) for _ in range(e - s + 1)]
             if poly and pos == "inside" and rng.random() < 0.4:   # same total size: the in-place path
                 old = ref.sec["elems"][s - f:e - f + 1]
-                if all(o is not None for o in old) and t != MIXED:
-                    new = [[rng.randint(1, 999) for _ in o] for o in old]
+                if all(o is not None for o in old):
+                    pn = permuted(old) if rng.random() < 0.5 else None
+                    if pn:
+                        new = pn; feat.add("permuted-sizes")
+                    elif t != MIXED:
+                        new = [[rng.randint(1, 999) for _ in o] for o in old]
             mt = rng.choice([4, 8, 8])
             general = rng.random() < 0.5
             if poly:
@@ -643,7 +725,12 @@ def run(ck):
     nh = 700 if big else 110
     found = bool(ck.violations)
     for i in range(0 if found else nh):
-        ops, feat = gen_history(ck.rng, avoid, big=big and i % 4 == 0)
+        ops, feat = gen_history(ck.rng, avoid, big=big and i % 4 == 0,
+                                directed={7: "permute", 3: "parcache"}.get(i % 10))
+        for k_ in ("permuted-sizes", "parent-resized"):
+            if k_ in feat:
+                dist.setdefault("directed", {}).setdefault(k_, 0)
+                dist["directed"][k_] += 1
         for backend in ("adf", "hdf5"):
             path = os.path.join(work, "h_%s.cgns" % backend)
             lines, outcome = run_impl(exe, ops, path, backend)
